@@ -130,9 +130,10 @@ func sleepC13() { time.Sleep(time.Millisecond) }
 
 // c13integration runs the real Client under a real StreamManager against a scripted TCP server: session 1 is
 // established and dropped abruptly; the first reconnect attempt meets the given fault; afterwards the server is healthy.
-// Exactly one new session (one more PostConnect call) must follow. fault: 0 none, 1 hang-up before the stream opens
+// (graceful: the server first sends its closing stream tag). Exactly one new session (one more PostConnect call) must
+// follow. fault: 0 none, 1 hang-up before the stream opens
 // (transport.Connect fails), 2 hang-up after the stream features (negotiation fails, no closing tag).
-func c13integration(t *testing.T, fault int) string {
+func c13integration(t *testing.T, fault int, graceful bool) string {
 	var nconn int32
 	sessions := make(chan *ServerConn, 16)
 	mock := ServerMock{}
@@ -184,7 +185,12 @@ func c13integration(t *testing.T, fault int) string {
 	for i := 0; i < 2000 && atomic.LoadInt32(&postConnect) < 1; i++ {
 		sleepC13()
 	}
-	sc1.connection.Close() // abrupt loss of the established connection
+	if graceful {
+		// the server ends the stream itself: closing tag, then the socket
+		sc1.connection.Write([]byte("</stream:stream>"))
+		time.Sleep(30 * time.Millisecond)
+	}
+	sc1.connection.Close() // (abrupt loss of the established connection when there was no closing tag)
 	select {
 	case <-sessions:
 	case <-time.After(15 * time.Second):
@@ -210,17 +216,22 @@ collect:
 func c13integrationAll(t *testing.T) (cases int, fails []string) {
 	var mu sync.Mutex
 	var wg sync.WaitGroup
-	for _, f := range []int{0, 1, 2} {
-		cases++
-		wg.Add(1)
-		go func(f int) {
-			defer wg.Done()
-			if m := c13integration(t, f); m != "" {
-				mu.Lock()
-				fails = append(fails, m)
-				mu.Unlock()
-			}
-		}(f)
+	for _, graceful := range []bool{false, true} {
+		for _, f := range []int{0, 1, 2} {
+			cases++
+			wg.Add(1)
+			go func(f int, graceful bool) {
+				defer wg.Done()
+				if m := c13integration(t, f, graceful); m != "" {
+					if graceful {
+						m = "server closes the stream gracefully; " + m
+					}
+					mu.Lock()
+					fails = append(fails, m)
+					mu.Unlock()
+				}
+			}(f, graceful)
+		}
 	}
 	wg.Wait()
 	return
